@@ -271,15 +271,15 @@ def step (st : St) (line : String) : St × List String :=
     match kvNat rest "wrong", kvNat rest "panics", kvNat rest "reads" with
     | some wrong, some panics, some reads =>
       let st := { st with n := st.n + 1 }
-      if panics > 0 then (st, [s!"spec {id} concurrent-get-panic {panics} of {reads} concurrent lookups panicked while sets were appended; first: {kv rest "first"}"])
-      else if wrong > 0 then (st, [s!"spec {id} concurrent-get-wrong-set {wrong} of {reads} concurrent lookups returned a set with another index; first: {kv rest "first"}"])
+      if panics > 0 then (st, [s!"spec {id} concurrent-get-panic {panics} of {reads} concurrent lookups panicked while sets were appended; first: {(kv rest "first").getD "-"}"])
+      else if wrong > 0 then (st, [s!"spec {id} concurrent-get-wrong-set {wrong} of {reads} concurrent lookups returned a set with another index; first: {(kv rest "first").getD "-"}"])
       else (st, [s!"ok {id}"])
     | _, _, _ => (st, [s!"diff {id} unparsable gsconc line"])
   | "gsrace" :: id :: rest =>
     match kvNat rest "detected" with
     | some 0 => ({ st with n := st.n + 1 }, [s!"ok {id}"])
     | some k => ({ st with n := st.n + 1 },
-        [s!"spec {id} guardian-set-read-races-with-append race detector: {k} report(s); read in {kv rest "read"} races with write in {kv rest "write"}"])
+        [s!"spec {id} guardian-set-read-races-with-append race detector: {k} report(s); read in {(kv rest "read").getD "?"} races with write in {(kv rest "write").getD "?"}"])
     | none => (st, [s!"diff {id} unparsable gsrace line"])
   | "quo" :: id :: rest =>
     match kvNat rest "n", kvNat rest "q" with
